@@ -991,6 +991,14 @@ class Translator:
         t = node['type'].get('desugaredQualType') or node['type']['qualType']
         t = strip_cv(t.rstrip('&* '))
         b = template_parts(t)[0].replace('std::__cxx11::', 'std::')
+        if not b.startswith('std::'):
+            # a project container that the unit maps onto the vector model (@typemap X = vec:<elem>)
+            try:
+                ct = self.tm.tname(node['type']).rstrip(' *').rstrip()
+                if self.tm.kinds.get(ct, ('',))[0] == 'vec' and any(rx.fullmatch(t) or rx.fullmatch(strip_cv(t)) for rx, _ in self.tm.overrides):
+                    return 'std::vector', t
+            except ExtractError:
+                pass
         return b, t
 
     def lib_call(self, n, name, full, obj, args, operator=False):
@@ -1913,6 +1921,8 @@ class Translator:
             self.cur.dropped.append(('message-building loop', self._line(n)))
             return
         k = self.new_loop('for', n)
+        if (self.cur.cname, k) not in self.loopc and self.index_map_loop(n, init, cond, inc, body):
+            return
         self.out('{')
         self.ind += 1
         if init:
@@ -1957,6 +1967,181 @@ class Translator:
         self.loop(k, pre, '%s < %s' % (iv, size), '++%s' % iv, body, n, textual=True)
         self.ind -= 1
         self.out('}')
+
+    def index_map_loop(self, n, init, cond, inc, body):
+        """`for (int i = A; i < B; ++i) X[i] = f(X[i], Y[i], scalars);` (or X[i] op= e) with f free of side effects and no
+        other access to X: summarised as the element-wise update it denotes -- no loop contract needed (the loop keeps
+        its index in the loop numbering).  Returns False if the loop does not have exactly this shape."""
+        def strip(x):
+            while x and x.get('kind') in ('ImplicitCastExpr', 'ParenExpr', 'ExprWithCleanups', 'MaterializeTemporaryExpr') and x.get('inner'):
+                x = [y for y in x['inner'] if y][0]
+            return x
+        if not init or init.get('kind') != 'DeclStmt' or not cond or not inc:
+            return False
+        vds = [v for v in init.get('inner', []) if v]
+        if len(vds) != 1 or vds[0].get('kind') != 'VarDecl':
+            return False
+        iv = vds[0]
+        try:
+            ict = self.tm.tname(iv['type'])
+        except ExtractError:
+            return False
+        if ict not in ('c_int', 'c_uint', 'c_long', 'c_ulong'):
+            return False
+        ainit = [x for x in iv.get('inner', []) if x and is_expr(x)]
+        if len(ainit) != 1:
+            return False
+        c = strip(cond)
+        if c.get('kind') != 'BinaryOperator' or c.get('opcode') != '<':
+            return False
+        cl, cr = strip(c['inner'][0]), c['inner'][1]
+        if cl.get('kind') != 'DeclRefExpr' or cl['referencedDecl']['id'] != iv['id']:
+            return False
+        ic = strip(inc)
+        if ic.get('kind') != 'UnaryOperator' or ic.get('opcode') != '++' or strip(ic['inner'][0]).get('kind') != 'DeclRefExpr' or \
+                strip(ic['inner'][0])['referencedDecl']['id'] != iv['id']:
+            return False
+        st = body
+        while st.get('kind') == 'CompoundStmt':
+            inner = [y for y in st.get('inner', []) if y]
+            if len(inner) != 1:
+                return False
+            st = inner[0]
+        st = strip(st)
+        if st.get('kind') not in ('BinaryOperator', 'CompoundAssignOperator') or (st['kind'] == 'BinaryOperator' and st.get('opcode') != '='):
+            return False
+        lhs, rhs = strip(st['inner'][0]), st['inner'][1]
+
+        def elem_access(x):
+            """(vector node, index node) if x is v[idx] on a modelled vector"""
+            x = strip(x)
+            if x.get('kind') == 'CXXOperatorCallExpr' and len(x.get('inner', [])) == 3 and \
+                    (self.callee_decl(x['inner'][0])[0] or {}).get('name') == 'operator[]':
+                return x['inner'][1], x['inner'][2]
+            return None
+        la = elem_access(lhs)
+        if not la:
+            return False
+        try:
+            xct = self.tm.tname(la[0]['type']).rstrip(' *').rstrip()
+        except ExtractError:
+            return False
+        if self.tm.kinds.get(xct, ('',))[0] != 'vec':
+            return False
+        li = strip(la[1])
+        if li.get('kind') != 'DeclRefExpr' or li['referencedDecl']['id'] != iv['id']:
+            return False
+        # purity: no calls except element reads and calls of extracted/pure getters without arguments that mention the loop variable
+        def pure(x, allow_elem=True):
+            for y in walk(x):
+                k = y.get('kind')
+                if k in ('CompoundAssignOperator',) or (k == 'BinaryOperator' and y.get('opcode') == '=') or \
+                        (k == 'UnaryOperator' and y.get('opcode') in ('++', '--')) or k in ('CXXThrowExpr', 'LambdaExpr', 'CXXNewExpr'):
+                    return False
+                if k in ('CallExpr', 'CXXMemberCallExpr'):
+                    return False
+                if k == 'CXXOperatorCallExpr' and not elem_access(y):
+                    return False
+            return True
+        if not pure(rhs):
+            return False
+        # start and bound may call argument-less const getters (dstart_(), length_(), dend_()): evaluated once, before the update
+        for bnd in (ainit[0], cr):
+            for y in walk(bnd):
+                if y.get('kind') in ('CXXOperatorCallExpr', 'ArraySubscriptExpr', 'CompoundAssignOperator', 'CallExpr') or \
+                        (y.get('kind') == 'UnaryOperator' and y.get('opcode') in ('++', '--')) or \
+                        (y.get('kind') == 'BinaryOperator' and y.get('opcode') == '='):
+                    return False
+                if y.get('kind') == 'CXXMemberCallExpr':
+                    if len([a for a in y.get('inner', [])[1:] if a]) != 0:
+                        return False
+                    md = self.full_decl({'id': y['inner'][0].get('referencedMemberDecl'), 'name': y['inner'][0].get('name')}) if y['inner'][0].get('kind') == 'MemberExpr' else None
+                    if md is None or not md['type']['qualType'].rstrip().endswith('const') and 'const' not in md['type']['qualType'].split(')')[-1]:
+                        return False
+        xtxt = self.e(la[0])
+        # every element access in rhs: index must be the loop variable; collect the other vectors read
+        others = []
+        for y in walk(rhs):
+            ea = elem_access(y) if y.get('kind') == 'CXXOperatorCallExpr' else None
+            if ea:
+                idx = strip(ea[1])
+                if idx.get('kind') != 'DeclRefExpr' or idx['referencedDecl']['id'] != iv['id']:
+                    return False
+                vt = self.e(ea[0])
+                if vt != xtxt and vt not in others:
+                    others.append(vt)
+        a_txt, b_txt = self.e(ainit[0]), self.e(cr)
+        called = self.called
+        self.alias[iv['id']] = 'verif_q'
+        try:
+            rtxt = self.e(rhs)
+            ltxt = self.e(lhs)
+        finally:
+            del self.alias[iv['id']]
+
+        def devec(t):
+            # element reads become plain array reads (no bounds obligation inside the quantifier; the range obligation is stated once)
+            out, j = '', 0
+            while True:
+                p = t.find('VEC_AT(', j)
+                if p < 0:
+                    return out + t[j:]
+                depth, q = 0, p + 6
+                while True:
+                    ch = t[q]
+                    if ch == '(':
+                        depth += 1
+                    elif ch == ')':
+                        depth -= 1
+                        if depth == 0:
+                            break
+                    q += 1
+                inside = t[p + 7:q]
+                # split at the top-level comma
+                d, cpos = 0, -1
+                for m, ch in enumerate(inside):
+                    if ch in '([':
+                        d += 1
+                    elif ch in ')]':
+                        d -= 1
+                    elif ch == ',' and d == 0:
+                        cpos = m
+                        break
+                vec, idx = inside[:cpos].strip(), devec(inside[cpos + 1:].strip())
+                out += t[j:p] + ('verif_old.data[%s]' % idx if vec == xtxt else '(%s).data[%s]' % (vec, idx))
+                j = q + 1
+        if st['kind'] == 'BinaryOperator':
+            newv = devec(rtxt)
+        else:
+            op = st['opcode'][:-1]
+            a, b = 'verif_old.data[verif_q]', devec(rtxt)
+            newv = 'RDIV(%s, %s)' % (a, b) if (op == '/' and self.tm.tname(lhs['type']) in ('real_t', 'realf_t')) else \
+                ('IDIV(%s, %s)' % (a, b) if op == '/' else ('IMOD(%s, %s)' % (a, b) if op == '%' else '(%s) %s (%s)' % (a, op, b)))
+        if 'VEC_AT(' in newv or 'verif_thrown' in newv:
+            return False
+        self.cur.stubs.add('element-wise summary of a side-effect-free index loop  for (i = a; i < b; ++i) x[i] = f(x[i], y[i], ...)')
+        self.cur.dropped.append(('index update loop summarised element-wise', self._line(n)))
+        self.out('{   /* for (i = a; i < b; ++i) x[i] = f(x[i], ...): x[k] = f(x[k], ...) for a <= k < b; nothing else changes (loop %d) */' % (len(self.cur.loops) - 1))
+        self.ind += 1
+        self.out('c_long verif_a = (c_long)(%s), verif_b = (c_long)(%s);' % (a_txt, b_txt))
+        if self.called:
+            self.propagate()
+        self.out('VERIF_OBL(!(verif_a < verif_b) || (verif_a >= 0 && (unsigned long)verif_b <= (%s).size), "%s/index loop line %s stays inside the updated vector");' % (xtxt, self.cur.cname, self._line(n)))
+        for o in others:
+            self.out('VERIF_OBL(!(verif_a < verif_b) || (unsigned long)verif_b <= (%s).size, "%s/index loop line %s stays inside the vector read");' % (o, self.cur.cname, self._line(n)))
+        self.out('__typeof__(%s) verif_old = (%s);' % (xtxt, xtxt))
+        self.out('__typeof__(%s) verif_dn;' % xtxt)
+        self.out('__CPROVER_assume(verif_dn.size == verif_old.size);')
+        rng = '(verif_a <= (c_long)(%s) && (c_long)(%s) < verif_b)'
+        if self.instantiate:
+            for g in self.instantiate:
+                self.out('__CPROVER_assume(verif_dn.data[%s] == (%s ? (%s) : verif_old.data[%s]));' % (g, rng % (g, g), newv.replace('verif_q', g), g))
+        else:
+            self.out('__CPROVER_assume(__CPROVER_forall { unsigned long verif_q; verif_dn.data[verif_q] == (%s ? (%s) : verif_old.data[verif_q]) });' % (rng % ('verif_q', 'verif_q'), newv))
+        self.out('(%s) = verif_dn;' % xtxt)
+        self.ind -= 1
+        self.out('}')
+        return True
 
     def map_loop(self, n, loopvar, body, rtxt):
         """`for (auto& x : v) x = f(x);` (or x op= e) with f free of side effects: summarised as the element-wise
